@@ -27,12 +27,13 @@ func CompileToGetCodeSet(ctx *RuntimeContext, typeptr uintptr) (*OpcodeSet, erro
 	verifhook.Point(1, unsafe.Pointer(&cachedOpcodeSets[index]), false)
 	if codeSet := cachedOpcodeSets[index]; codeSet != nil {
 		verifhook.EncBind(typeptr, unsafe.Pointer(codeSet.Type))
+		// the read lock only guards the cache slot: filtering may encode the
+		// FieldQuery itself, which compiles (and write-locks) on first use
+		setsMu.RUnlock()
 		filtered, err := getFilteredCodeSetIfNeeded(ctx, codeSet)
 		if err != nil {
-			setsMu.RUnlock()
 			return nil, err
 		}
-		setsMu.RUnlock()
 		return filtered, nil
 	}
 	setsMu.RUnlock()
